@@ -11,6 +11,7 @@ import (
 	"bytes"
 	"fmt"
 	"math"
+	"regexp"
 	"strconv"
 	"strings"
 	"testing"
@@ -120,6 +121,8 @@ func init() {
 	}
 }
 
+var charRef = regexp.MustCompile(`&(lt|gt|quot|apos|amp|#[0-9]{1,7}|#x[0-9a-fA-F]{1,6});`)
+
 var mimes = map[string]imagetype.ImageType{"image/jpeg": imagetype.ImageJPEG, "image/png": imagetype.ImagePNG, "image/tiff": imagetype.ImageTiff, "image/x-canon-cr3": imagetype.ImageCR3,
 	"image/x-adobe-dng": imagetype.ImageDNG, "image/heif": imagetype.ImageHEIF, "image/x-nikon-nef": imagetype.ImageNEF}
 
@@ -127,8 +130,33 @@ var mimes = map[string]imagetype.ImageType{"image/jpeg": imagetype.ImageJPEG, "i
 func interpret(s *spec, text string) (any, error) {
 	switch s.k {
 	case kString:
-		// the five predefined entities stand for their characters (XML 1.0 section 4.6)
-		return strings.NewReplacer("&lt;", "<", "&gt;", ">", "&quot;", "\"", "&apos;", "'", "&amp;", "&").Replace(text), nil
+		// the five predefined entities stand for their characters (XML 1.0 section 4.6), character references &#N; / &#xH;
+		// for the character with that code (section 4.1); one left-to-right pass, nothing is expanded twice
+		return charRef.ReplaceAllStringFunc(text, func(m string) string {
+			switch m {
+			case "&lt;":
+				return "<"
+			case "&gt;":
+				return ">"
+			case "&quot;":
+				return "\""
+			case "&apos;":
+				return "'"
+			case "&amp;":
+				return "&"
+			}
+			var n uint64
+			var err error
+			if m[2] == 'x' {
+				n, err = strconv.ParseUint(m[3:len(m)-1], 16, 32)
+			} else {
+				n, err = strconv.ParseUint(m[2:len(m)-1], 10, 32)
+			}
+			if err != nil || n == 0 || n > 0x10ffff {
+				return m
+			}
+			return string(rune(n))
+		}), nil
 	case kU16, kU32, kEnum:
 		v, err := strconv.ParseUint(text, 10, 64)
 		return v, err
@@ -565,7 +593,8 @@ func genCase(o opts) func(rt *rapid.T) Case {
 				// predefined entities at the start, in the middle and at the end of the value
 				ent := func(l string) string {
 					// (the last five are escaped text that itself looks like an entity: they stand for "&lt;", "&amp;" ... literally)
-					return rapid.SampledFrom([]string{"&amp;", "&lt;", "&gt;", "&quot;", "&apos;", "&amp;lt;", "&amp;amp;", "&amp;gt;", "&amp;quot;", "&amp;apos;"}).Draw(rt, l)
+					return rapid.SampledFrom([]string{"&amp;", "&lt;", "&gt;", "&quot;", "&apos;", "&amp;lt;", "&amp;amp;", "&amp;gt;", "&amp;quot;", "&amp;apos;",
+						"&#10;", "&#xA;", "&#x41;", "&#233;", "&#x65E5;", "&#38;", "&#x26;lt;", "&amp;#10;"}).Draw(rt, l)
 				}
 				switch rapid.IntRange(0, 3).Draw(rt, "entpos") {
 				case 0:
@@ -685,7 +714,7 @@ func TestProp(t *testing.T) {
 		"oracle: parse(serialise(record)) == record field by field by independently written text-to-value rules (floats within 2 ulp of float32, dates as instants with zone offset, arrays in document order, nothing extra); all-attribute form == all-element form; a token longer than the 1538-byte window => error. " +
 		"non-trivial = >= 4 properties, both forms present and >= 1 value of >= 120 bytes; distinct by packet bytes")
 	rec.Assume("values use what a writer can emit without escaping: no < > & quotes, no leading / trailing white space; predefined entities, TAB / CR white space, > 100 bytes between tokens and Rating -1 are extended switches checked separately (key ext:<switch>)")
-	rec.Assume("rdf:parseType structures, comments, CDATA sections, numeric character references and unqualified attributes are outside what the reader models and are not generated (values never begin with a literal '>' nor carry leading / trailing white space)")
+	rec.Assume("rdf:parseType structures, comments, CDATA sections and unqualified attributes are outside what the reader models and are not generated (values never begin with a literal '>' nor carry leading / trailing white space)")
 	rec.Rule("exhaustive shift: records drawn from VERIF_SEED, each behind 0..N bytes that precede the packet (N = 1600 quick, 3300 thorough; the reader's window is 1538 bytes): every token of the packet meets every window phase")
 	pbt.RegressDir(t, rec)
 	{
